@@ -51,6 +51,20 @@ unsafe impl std::alloc::GlobalAlloc for Counting {
     }
 }
 
+/// largest processor time of a single call seen by this worker (reported per case)
+pub static MAX_CALL_CPU_MS: AtomicU64 = AtomicU64::new(0);
+
+/// user + system time of the calling thread in seconds (Linux: /proc/thread-self/stat, 10 ms ticks)
+fn thread_cpu_seconds() -> Option<f64> {
+    let s = std::fs::read_to_string("/proc/thread-self/stat").ok()?;
+    // the command name (field 2) may contain spaces: fields are counted behind its closing parenthesis
+    let rest = &s[s.rfind(')')? + 1..];
+    let f: Vec<&str> = rest.split_whitespace().collect();
+    let utime: u64 = f.get(11)?.parse().ok()?;
+    let stime: u64 = f.get(12)?.parse().ok()?;
+    Some((utime + stime) as f64 / 100.0)
+}
+
 struct Meter {
     total0: u64,
     cur0: u64,
@@ -103,13 +117,23 @@ impl Judge<'_> {
         }
         let m = meter_start(dev);
         let t0 = std::time::Instant::now();
+        let c0 = thread_cpu_seconds();
         let r = guarded(f);
         let wall = t0.elapsed();
+        // CPU time of this thread, not wall time: the verdict must not depend on what else the
+        // machine is doing (wall time is the fallback where the kernel does not report it)
+        let cpu = match (c0, thread_cpu_seconds()) {
+            (Some(a), Some(b)) => b - a,
+            _ => wall.as_secs_f64(),
+        };
         let (alloc, peak, read) = meter_stop(&m, dev);
-        if self.mode == Mode::Budget && wall.as_secs() >= 10 {
-            // a single call on inputs of at most a few MiB takes milliseconds; 10 s of wall time
-            // (also on a loaded machine) means work that is not bounded by the input size
-            self.ctx.violation(format!("C09/time/{name}"), format!("{name} took {:.1} s on an input of {} bytes: {}", wall.as_secs_f64(), self.l, self.what));
+        if self.mode == Mode::Budget {
+            MAX_CALL_CPU_MS.fetch_max((cpu * 1000.0) as u64, Ordering::Relaxed);
+        }
+        if self.mode == Mode::Budget && cpu >= 10.0 {
+            // a single call on inputs of at most a few MiB takes milliseconds; 10 s of processor
+            // time means work that is not bounded by the input size
+            self.ctx.violation(format!("C09/time/{name}"), format!("{name} took {cpu:.1} s of processor time ({:.1} s wall) on an input of {} bytes: {}", wall.as_secs_f64(), self.l, self.what));
             self.failed = true;
             return None;
         }
@@ -372,7 +396,25 @@ fn sweep(ctx: &Ctx, mode: Mode) {
     ctx.describe(|| what.clone());
     ctx.observe(&bytes[..bytes.len().min(1 << 16)]);
     ctx.observe_u64(bytes.len() as u64);
+    MAX_CALL_CPU_MS.store(0, Ordering::Relaxed);
+    let what2 = what.clone();
     run_all(ctx, mode, &bytes, what, if ctx.tier_thorough { 64 } else { 8 });
+    if mode == Mode::Budget {
+        // how close the slowest single call of this case came to the 10 s limit
+        let ms = MAX_CALL_CPU_MS.load(Ordering::Relaxed);
+        let bucket = match ms {
+            0..=99 => "<0.1s",
+            100..=999 => "0.1-1s",
+            1000..=2999 => "1-3s",
+            3000..=9999 => "3-10s",
+            _ => ">=10s",
+        };
+        ctx.count(format!("slowest-call-cpu:{bucket}"));
+        if ms >= 1000 {
+            let tail = what2.rsplit(" + [").next().unwrap_or("").chars().take(90).collect::<String>();
+            ctx.count(format!("slow-case:{:.1}s:{tail}", ms as f64 / 1000.0));
+        }
+    }
 }
 
 pub fn sweep_nopanic(ctx: &Ctx) {
